@@ -32,6 +32,7 @@ def run(ctx):
     c17_2(ctx)
     c17_3(ctx)
     c17_4(ctx)
+    c17_5(ctx)
 
 
 def minimal(i):
@@ -301,3 +302,55 @@ def _lit(t):
 def _is_atom_hash(t, lit):
     t = strip_all(t)
     return t[0] == "call" and t[1] == TH + "tree_hash_atom" and _lit(t[2][0]) == lit
+
+
+def c17_5(ctx):
+    """(a) curry_tree_hash returns, on every path, the hash of (a (q . P) ARGS) with ARGS = 1 for no arguments and
+    (c (q . arg) ARGS') otherwise — including the zero-argument case, which is still an application, not P itself;
+    (b) TreeCache::visit moves a pair's state NOT_VISITED -> SEEN_ONCE -> SEEN_MULTIPLE and never touches an entry that is
+    already a memo slot (a value at or below SEEN_MULTIPLE): the decrement is guarded by `> SEEN_MULTIPLE`"""
+    from .. import apnf
+    R = "C17.4"
+    b = U.body(ctx, R, "clvm_utils::curry_tree_hash::curry_tree_hash")
+    if b:
+        A = lambda v: ("tree_hash_atom", ("as &[u8]", bytes(v)))
+        PAIR = lambda x, y: ("tree_hash_pair", x, y)
+
+        def args_ok(t, depth=0):
+            if t == A([1]):
+                return True
+            # (c (q . arg) rest)
+            return isinstance(t, tuple) and len(t) == 3 and t[0] == "tree_hash_pair" and t[1] == A([4]) and isinstance(t[2], tuple) and len(t[2]) == 3 \
+                and t[2][0] == "tree_hash_pair" and isinstance(t[2][1], tuple) and t[2][1][:2] == ("tree_hash_pair", A([1])) and "arg_hashes" in str(t[2][1][2]) \
+                and isinstance(t[2][2], tuple) and t[2][2][0] == "tree_hash_pair" and t[2][2][2] == A([]) and depth < 4 and args_ok(t[2][2][1], depth + 1)
+        rets = []
+        bad = []
+        for ev, ex in P.enumerate_paths(b):
+            if ex[0] != "return":
+                continue
+            r = apnf.N(P.ret_of(ev))
+            rets.append(r)
+            ok = isinstance(r, tuple) and len(r) == 3 and r[0] == "tree_hash_pair" and r[1] == A([2]) and isinstance(r[2], tuple) and len(r[2]) == 3 \
+                and r[2][1] == PAIR(A([1]), "program_hash") and isinstance(r[2][2], tuple) and r[2][2][0] == "tree_hash_pair" and r[2][2][2] == A([]) \
+                and args_ok(r[2][2][1])
+            if not ok:
+                bad.append(str(r)[:200])
+        ctx.ob(R, "curry_tree_hash:shape", not bad and len(rets) >= 2,
+               "curry_tree_hash returns hash((a (q . P) ARGS)) on every path (zero arguments included), ARGS built as (c (q . arg) ..) ending in 1",
+               found=bad[:2] or None, where=b.fn.sp)
+    R = "C17.3"
+    vb = U.body(ctx, R, TH + "TreeCache::visit")
+    if vb:
+        consts = {k: ctx.fb.consts.get(TH + k, {}).get("value") for k in ("NOT_VISITED", "SEEN_ONCE", "SEEN_MULTIPLE")}
+        rows = set()
+        for ev, ex in P.enumerate_paths(vb, want_assign=True):
+            if ex[0] != "return":
+                continue
+            dec = any(e[0] == "assign" and "SubWithOverflow" in str(apnf.N(e[3])) and ".pairs" in str(apnf.N(e[2])) for e in ev)
+            g = [(t, v) for t, v in (apnf.fact(t, l) for t, l in P.conds(ev)) if isinstance(t, tuple) and t[0] in ("Gt", "Ge", "Lt", "Le", "Ne", "Eq") and ".pairs" in str(t[1]) and "index" in str(t[1])]
+            rows.add((tuple(sorted((t[0], t[2], v) for t, v in g)), dec))
+        sm = consts.get("SEEN_MULTIPLE")
+        want = {((("Gt", sm, True),), True), ((("Gt", sm, False),), False), ((), False)}
+        ctx.ob(R, "visit:decrement-guard", rows == want and sm is not None,
+               "TreeCache::visit decrements a pair's state only while it is above SEEN_MULTIPLE (never a memo slot index)",
+               found=sorted(map(str, rows ^ want))[:4] or None, where=vb.fn.sp)
